@@ -109,7 +109,9 @@ class _Quadrature(torch.autograd.Function):
             params = all_params[:nparams]
             objparams = all_params[nparams:]
 
-            # convert to tensor
+            # convert to tensor (remember which limits the caller gave as tensors)
+            xl_is_tensor = isinstance(xl, torch.Tensor)
+            xu_is_tensor = isinstance(xu, torch.Tensor)
             xl = torch.as_tensor(xl, dtype=dtype, device=device)
             xu = torch.as_tensor(xu, dtype=dtype, device=device)
 
@@ -140,8 +142,8 @@ class _Quadrature(torch.autograd.Function):
             # save the parameters for backward
             ctx.param_sep = TensorNonTensorSeparator(all_params)
             tensor_params = ctx.param_sep.get_tensor_params()
-            ctx.xltensor = isinstance(xl, torch.Tensor)
-            ctx.xutensor = isinstance(xu, torch.Tensor)
+            ctx.xltensor = xl_is_tensor
+            ctx.xutensor = xu_is_tensor
             xlxu_tensor = ([xl] if ctx.xltensor else []) + \
                           ([xu] if ctx.xutensor else [])
             ctx.xlxu_nontensor = ([xl] if not ctx.xltensor else []) + \
